@@ -10,6 +10,7 @@ import rxsci.framing.line as line
 
 from vf.core import Sub, Violation, Reject
 from vf import drive, harness as H
+from vf.gen import weighted_text
 
 PID = 'C19'
 LEVEL = 'exploration'
@@ -22,7 +23,9 @@ RULE = ("Lists of JSON-representable dicts (nested lists/dicts, ints within +-2^
         "a newline / non-ASCII character.")
 ASSUMPTIONS = ['items are dicts with str keys (load drops top-level null); no NaN / infinity; no lone surrogates (orjson limits)']
 
-TEXT = st.text(alphabet=st.one_of(st.sampled_from(list('ab "\\\n\r\t é€\U0001F600{}[],:')), st.characters(blacklist_categories=('Cs',))), max_size=10)
+SPECIAL = ['a', 'b', ' ', '"', '\\', '\n', '\r', '\t', '\u00e9', '\u20ac', '\U0001F600', '{', '}', '[', ']', ',', ':',
+           '\u2028', '\u2029', '\x85', '\x0b', '\x0c', '\x1c', '\x1e']
+TEXT = weighted_text(st.one_of(st.sampled_from(SPECIAL), st.characters(blacklist_categories=('Cs',))), max_size=10)
 LEAF = st.one_of(st.none(), st.booleans(), st.integers(-2 ** 63, 2 ** 63 - 1), st.integers(-100, 100),
                  st.floats(allow_nan=False, allow_infinity=False), TEXT)
 VALUE = st.recursive(LEAF, lambda ch: st.one_of(st.lists(ch, max_size=4), st.dictionaries(TEXT, ch, max_size=4)), max_leaves=10)
@@ -137,8 +140,8 @@ def check_files(case):
 
 def subs(tier):
     return [
-        Sub('files', check_files, gen=case_gen, examples={'quick': 250, 'thorough': 8000},
+        Sub('files', check_files, gen=case_gen, examples={'quick': 150, 'thorough': 8000},
             doc='dump_to_file -> load_from_file for None/gzip/zstd, 0 objects .. several 64 KiB chunks, path / custom open_obj'),
-        Sub('memory', check_memory, gen=lambda: case_gen(files=False), examples={'quick': 1500, 'thorough': 60000},
+        Sub('memory', check_memory, gen=lambda: case_gen(files=False), examples={'quick': 800, 'thorough': 60000},
             doc='dump -> line.unframe -> load in memory'),
     ]
